@@ -120,15 +120,40 @@ def strip_coq_comments(src):
     return "".join(out)
 
 
-def audit():
-    """Scan every .v file (and _CoqProject) for escape hatches."""
+def coq_closure(roots):
+    """Transitive closure of `From Verif Require ... X.Y` / `Require Import Verif.X.Y` over our own files."""
+    seen = {}
+    todo = list(roots)
+    while todo:
+        f = todo.pop()
+        if f in seen or not os.path.exists(f):
+            continue
+        src = strip_coq_comments(open(f).read())
+        seen[f] = True
+        mods = set()
+        for m in re.finditer(r"From\s+Verif\s+Require\s+(?:Import\s+|Export\s+)?((?:[A-Za-z_][\w']*(?:\.[A-Za-z_][\w']*)*\s*)+)\.(?=\s|$)", src):
+            for name in m.group(1).split():
+                mods.add(name)
+        for m in re.finditer(r"Require\s+(?:Import\s+|Export\s+)?((?:Verif\.[\w'.]+\s+)*Verif\.[\w']+(?:\.[\w']+)*)\s*\.(?=\s|$)", src):
+            for name in m.group(1).split():
+                mods.add(name[len("Verif."):])
+        for name in mods:
+            todo.append(os.path.join(COQ, "theories", *name.split(".")) + ".v")
+    return sorted(seen)
+
+
+def audit(roots=None):
+    """Scan .v files for escape hatches: the dependency closure of `roots` (paths), or the whole tree."""
     hits = []
     files = []
-    for sub in ("theories", "extract"):
-        for root, _, names in os.walk(os.path.join(COQ, sub)):
-            for nm in names:
-                if nm.endswith(".v"):
-                    files.append(os.path.join(root, nm))
+    if roots is not None:
+        files = coq_closure(roots)
+    else:
+        for sub in ("theories", "extract"):
+            for root, _, names in os.walk(os.path.join(COQ, sub)):
+                for nm in names:
+                    if nm.endswith(".v"):
+                        files.append(os.path.join(root, nm))
     for f in sorted(files):
         src = strip_coq_comments(open(f).read())
         # Variables / Hypotheses are only allowed inside sections.
@@ -214,8 +239,11 @@ def prove(pid, extra_targets=(), timeout=3000):
     """Build Properties/<pid>.vo and everything it needs, then re-run coqc on the
     property file to capture Print Assumptions.  Returns a dict for evidence;
     raises CheckFailure (with .proof attribute) when an obligation is not discharged."""
-    nfiles, hits = audit()
-    info = {"audit_files": nfiles, "audit_hits": hits}
+    roots = [os.path.join(COQ, properties_file(pid)), os.path.join(COQ, "extract", pid + ".v"),
+             os.path.join(COQ, "theories", "Extract", pid + ".v")]
+    roots += [os.path.join(COQ, t[:-1]) for t in extra_targets if t.endswith(".vo")]
+    nfiles, hits = audit(roots)
+    info = {"audit_files": nfiles, "audit_hits": hits, "audit_scope": "dependency closure of Properties/%s.v and its extraction files" % pid}
     if hits:
         e = CheckFailure("audit found forbidden constructs:\n" + "\n".join(hits))
         e.info = info
